@@ -148,6 +148,14 @@ def header_fields(spec: dict, ifile: int, tstart: float) -> dict:
     }
 
 
+def gen_pads(rng, n, small=9):
+    """Lengths of the free-text header strings of n files: mostly short, sometimes the long archive paths
+    other packages write (longer than the 80 characters some C tools stop at)."""
+    if rng.random() < 0.12:
+        return [rng.choice([79, 80, 81, 95, 200, 300]) for _ in range(n)]
+    return [rng.randint(0, small) for _ in range(n)]
+
+
 class FileSet:
     """What was put on the simulated disk, plus the model."""
 
@@ -248,13 +256,13 @@ def parse_header(buf: bytes):
     not start with ONE complete header."""
     pos = 0
 
-    def rstr():
+    def rstr(limit=80):
         nonlocal pos
         if pos + 4 > len(buf):
             raise HeaderError("truncated length")
         (n,) = struct.unpack_from("<I", buf, pos)
         pos += 4
-        if n > 80 or pos + n > len(buf):
+        if n > limit or pos + n > len(buf):
             raise HeaderError(f"bad string length {n}")
         s = buf[pos : pos + n]
         pos += n
@@ -274,7 +282,7 @@ def parse_header(buf: bytes):
         if ty is None:
             raise HeaderError(f"unknown key {k!r}")
         if ty == "s":
-            fields[k] = rstr()
+            fields[k] = rstr(limit=4096)  # string VALUES (archive paths) are not bounded by the format
         else:
             size = struct.calcsize("<" + ty)
             if pos + size > len(buf):
